@@ -19,11 +19,15 @@ fn robot() -> OPWKinematics {
 
 fn safety_from(table: &Value, def_env_um: i64, def_robot_um: i64, mode: CheckMode) -> SafetyDistances {
     let mut m: HashMap<(u16, u16), f32> = HashMap::new();
+    let mut listed: Vec<((usize, usize), f32)> = Vec::new();
     for t in table.as_array().unwrap() {
         let r = t[2].as_i64().unwrap();
         let v = if r <= -1_000_000 { NEVER_COLLIDES } else { r as f32 / 1e6 };
         m.insert((t[0].as_u64().unwrap() as u16, t[1].as_u64().unwrap() as u16), v);
+        listed.push(((t[0].as_u64().unwrap() as usize, t[1].as_u64().unwrap() as usize), v));
     }
+    // tables with an even number of entries are built with the library's own helper (pairs of usize -> table)
+    if listed.len() % 2 == 0 { m = SafetyDistances::distances(&listed); }
     SafetyDistances { to_environment: def_env_um as f32 / 1e6, to_robot_default: def_robot_um as f32 / 1e6, special_distances: m, mode }
 }
 
